@@ -27,7 +27,6 @@ UNSET   == 0
 NOVALUE == -1
 Dflt(i) == 1000 + i
 Extras  == {101, 102}
-ExIdx(n) == n - 100
 
 Kinds == {"PO", "PK", "VP", "KO", "VK"}
 Rank(k) == CASE k = "PO" -> 1 [] k = "PK" -> 2 [] k = "VP" -> 3
@@ -77,11 +76,17 @@ SliceIdx(st, sp, step, len) ==
 (*   pre : Seq(Val) of length NPos(sig)  -- fixed positional prefix        *)
 (*   va  : Seq(Val \ {0})                -- *args                          *)
 (*   ko  : [1..Len(sig) -> Val]          -- keyword-only cells (others 0)  *)
-(*   ex  : [1..2 -> Val]                 -- extra names (only with **kw)   *)
+(*   ex  : [1..Len(sig)+2 -> Val]        -- what **kwargs receives: cell i *)
+(*         <= Len(sig) is a keyword named like parameter i (possible only  *)
+(*         for positional-only / variadic parameters, through the          *)
+(*         constructor); the last two cells are the names 101 and 102      *)
 (***************************************************************************)
 EmptyState(sig) ==
   [pre |-> [i \in 1..NPos(sig) |-> UNSET], va |-> <<>>,
-   ko |-> [i \in 1..Len(sig) |-> UNSET], ex |-> [i \in 1..2 |-> UNSET]]
+   ko |-> [i \in 1..Len(sig) |-> UNSET], ex |-> [i \in 1..Len(sig) + 2 |-> UNSET]]
+
+ExIdx(sig, n) == IF n > 100 THEN Len(sig) + (n - 100) ELSE n
+ExName(sig, j) == IF j > Len(sig) THEN 100 + (j - Len(sig)) ELSE j
 
 L(S) == S.pre \o S.va
 CellView(sig, S, i) ==   \* what cfg[i-1] reports
@@ -95,7 +100,9 @@ WellFormed(sig, S) ==
   /\ \A i \in 1..Len(S.va) : S.va[i] # UNSET
   /\ (~HasVP(sig) => S.va = <<>>)
   /\ \A i \in 1..Len(sig) : sig[i].kind # "KO" => S.ko[i] = UNSET
-  /\ (~HasVK(sig) => \A j \in 1..2 : S.ex[j] = UNSET)
+  /\ Len(S.ex) = Len(sig) + 2
+  /\ (~HasVK(sig) => \A j \in 1..Len(S.ex) : S.ex[j] = UNSET)
+  /\ \A j \in 1..Len(sig) : sig[j].kind \in {"PK", "KO"} => S.ex[j] = UNSET
 
 Res(o, S, r) == [out |-> o, S |-> S, ret |-> r]
 Ok(S)        == Res("ok", S, <<>>)
@@ -176,13 +183,13 @@ SetAttr(sig, S, n, v) ==
   LET k == NameKind(sig, n) IN
   CASE k = "PK" -> Ok([S EXCEPT !.pre[n] = v])
     [] k = "KO" -> Ok([S EXCEPT !.ko[n] = v])
-    [] k = "EX" -> IF HasVK(sig) THEN Ok([S EXCEPT !.ex[ExIdx(n)] = v]) ELSE Raise(S)
+    [] k = "EX" -> IF HasVK(sig) THEN Ok([S EXCEPT !.ex[ExIdx(sig, n)] = v]) ELSE Raise(S)
     [] OTHER    -> Raise(S)          \* PO, VP by name (VK's own name: not in domain)
 
 GetAttr(sig, S, n) ==
   LET k == NameKind(sig, n)
       cell == CASE k = "PK" -> S.pre[n] [] k = "KO" -> S.ko[n]
-                [] k = "EX" -> S.ex[ExIdx(n)] [] OTHER -> UNSET
+                [] k = "EX" -> S.ex[ExIdx(sig, n)] [] OTHER -> UNSET
   IN
   IF k \in {"PO", "VP", "VK"} THEN Raise(S)
   ELSE IF cell # UNSET THEN OkRet(S, <<cell>>)
@@ -193,8 +200,8 @@ DelAttr(sig, S, n) ==
   LET k == NameKind(sig, n) IN
   CASE k = "PK" -> IF S.pre[n] # UNSET THEN Ok([S EXCEPT !.pre[n] = UNSET]) ELSE Raise(S)
     [] k = "KO" -> IF S.ko[n] # UNSET THEN Ok([S EXCEPT !.ko[n] = UNSET]) ELSE Raise(S)
-    [] k = "EX" -> IF S.ex[ExIdx(n)] # UNSET
-                   THEN Ok([S EXCEPT !.ex[ExIdx(n)] = UNSET]) ELSE Raise(S)
+    [] k = "EX" -> IF S.ex[ExIdx(sig, n)] # UNSET
+                   THEN Ok([S EXCEPT !.ex[ExIdx(sig, n)] = UNSET]) ELSE Raise(S)
     [] OTHER    -> Raise(S)
 
 (***************************************************************************)
@@ -222,8 +229,12 @@ OAParams(sig, S, i, incDefaults, incUnset) ==
                               ELSE IF k = "PO" THEN <<0, i - 1, val>> ELSE <<1, i, val>>
     IN here \o OAParams(sig, S, i + 1, incDefaults, incUnset)
 
-OAExtras(S) == (IF S.ex[1] # UNSET THEN <<1, 101, S.ex[1]>> ELSE <<>>)
-            \o (IF S.ex[2] # UNSET THEN <<1, 102, S.ex[2]>> ELSE <<>>)
+RECURSIVE OAExtrasFrom(_, _, _)
+OAExtrasFrom(sig, S, j) ==
+  IF j > Len(S.ex) THEN <<>>
+  ELSE (IF S.ex[j] # UNSET THEN <<1, ExName(sig, j), S.ex[j]>> ELSE <<>>)
+       \o OAExtrasFrom(sig, S, j + 1)
+OAExtras(sig, S) == OAExtrasFrom(sig, S, 1)
 
 RECURSIVE DropPositional(_)
 DropPositional(q) ==
@@ -235,12 +246,12 @@ DropPositional(q) ==
 Bit(f, b) == (f \div (2 ^ b)) % 2 = 1
 OrderedArgs(sig, S, f) ==
   LET base == OAParams(sig, S, 1, Bit(f, 1), Bit(f, 2))
-              \o (IF Bit(f, 0) THEN OAExtras(S) ELSE <<>>)
+              \o (IF Bit(f, 0) THEN OAExtras(sig, S) ELSE <<>>)
   IN IF Bit(f, 3) THEN base ELSE DropPositional(base)
 
 DirNames(sig, S) ==
   {i \in 1..Len(sig) : sig[i].kind \in {"PK", "KO"}}
-    \cup {100 + j : j \in {j \in 1..2 : S.ex[j] # UNSET}}
+    \cup {ExName(sig, j) : j \in {j \in 1..Len(S.ex) : S.ex[j] # UNSET}}
 
 (***************************************************************************)
 (* One operator for every operation record                                 *)
